@@ -598,6 +598,9 @@ func master(cfg *harness.Config, rep *harness.Report) {
 	// runs the prune pass over both - while the write is inside the other
 	for _, w := range []string{"updvec", "del-ins"} {
 		for _, limit := range []int64{0, 16 << 20} {
+			if limit == 0 && cfg.Quick() {
+				continue // the quick tier runs the variant with a size limit only (its accesses also run the prune pass)
+			}
 			q := Program{Searchers: []string{"flat", "vamana"}, Writer: w, Start: "warm", GetEvery: 8, TwoCaches: true, CacheLimit: limit}
 			programs = append(programs, q) // bound 0 in the quick tier, bound 1 in the thorough tier (~24 k executions each)
 		}
